@@ -7,7 +7,7 @@ arguments).  RDP / epsilon values are `EV R` (`fin | pinf | nan`) because the re
 `np.inf` (sigma = 0, alpha = inf) and `nan` (`inf * 0`, the `alpha = inf` column of the conversion)
 and `np.nanargmin` skips the latter.
 
-Not modelled: float overflow (`OverflowError` branch of `_log_sub`, `exp` overflow for tiny sigma),
+Not modelled: float overflow other than the `OverflowError` branch of `_log_sub` (e.g. `exp` overflow for tiny sigma),
 `-0.0`, NaN *inputs*.  Domain guard of the model (absent in the code): orders must be > 1 in the
 branch 0 < q < 1 (the code raises `ZeroDivisionError` at alpha = 1 and returns junk below). -/
 namespace Opacus.Rdp
@@ -30,7 +30,7 @@ def logAdd (x y : Option R) : Option R :=
     let b := if lt x y then y else x   -- max(logx, logy)
     some (log1p (exp (a - b)) + b)
 
-/-- `_log_sub(logx, logy)` (without the `OverflowError` branch) -/
+/-- `_log_sub(logx, logy)`; `except OverflowError: return logx` is the `expm1Ovf` branch -/
 def logSub (x y : Option R) : Except Err (Option R) :=
   match x, y with
   | x, none => .ok x
@@ -38,6 +38,7 @@ def logSub (x y : Option R) : Except Err (Option R) :=
   | some x, some y =>
     if lt x y then .error .logSubNeg
     else if beq x y then .ok none
+    else if expm1Ovf (x - y) then .ok (some x)
     else .ok (some (log (expm1 (x - y)) + y))
 
 /-- the `i`-th summand `s` of `_compute_log_a_for_int_alpha`, in log space -/
@@ -62,7 +63,7 @@ def fracNdtrArgs (q sigma alpha : R) (i : Nat) : R × R :=
 
 /-- body of the `while True` loop of `_compute_log_a_for_frac_alpha`; `coef = binom(alpha, i)` is
 carried along (`binom(α, i+1) = binom(α, i)·(α−i)/(i+1)`) -/
-def fracLoop (lnd : R → R) (q sigma alpha z0 : R) :
+def fracLoop (lnd : R → R) (repaired : Bool) (q sigma alpha z0 : R) :
     Nat → Nat → R → Option R → Option R → Except Err (Option R)
   | 0, _, _, _, _ => .error .oracleExhausted
   | fuel + 1, i, coef, a0, a1 =>
@@ -87,13 +88,17 @@ def fracLoop (lnd : R → R) (q sigma alpha z0 : R) :
     | .error e => .error e
     | .ok (b0, b1) =>
       let m := if lt logS0 logS1 then logS1 else logS0   -- max(log_s0, log_s1)
-      if lt m (-(ofNat 30)) then .ok (logAdd b0 b1)
-      else fracLoop lnd q sigma alpha z0 fuel (i + 1) (coef * (alpha - iR) / ofNat (i + 1)) b0 b1
+      -- as coded: `i += 1; if max(log_s0, log_s1) < -30: break`.  Finding C06:frac-series-stops-at-
+      -- first-term: when the binomial weights peak in the interior (large q, large sigma, large
+      -- fractional alpha) the FIRST terms are already below e^-30 and the loop stops at i = 0.
+      -- repaired: the test is made only after the last positive coefficient (`i > alpha`).
+      if (!repaired || lt alpha (ofNat (i + 1))) && lt m (-(ofNat 30)) then .ok (logAdd b0 b1)
+      else fracLoop lnd repaired q sigma alpha z0 fuel (i + 1) (coef * (alpha - iR) / ofNat (i + 1)) b0 b1
 
 /-- `_compute_log_a_for_frac_alpha(q, sigma, alpha)` with at most `fuel` iterations -/
-def logAFrac (lnd : R → R) (fuel : Nat) (q sigma alpha : R) : Except Err (Option R) :=
+def logAFrac (lnd : R → R) (repaired : Bool) (fuel : Nat) (q sigma alpha : R) : Except Err (Option R) :=
   let z0 := (sigma * sigma) * log (ofNat 1 / q - ofNat 1) + ofNat 1 / ofNat 2
-  fracLoop lnd q sigma alpha z0 fuel 0 (ofNat 1) none none
+  fracLoop lnd repaired q sigma alpha z0 fuel 0 (ofNat 1) none none
 
 /-- what the fractional-order routine needs from outside the model -/
 structure Cfg (R : Type) where
@@ -101,6 +106,8 @@ structure Cfg (R : Type) where
   logNdtr : R → R
   /-- bound on the number of series terms (the driver's oracle table is finite) -/
   fuel : Nat
+  /-- variant switch for finding `C06:frac-series-stops-at-first-term` (`false` = as coded) -/
+  repaired : Bool := false
 
 /-- `_compute_rdp(q, sigma, alpha)` -/
 def computeRdp1 (cfg : Cfg R) (q sigma : R) (alpha : Order R) : Except Err (EV R) :=
@@ -122,15 +129,29 @@ def computeRdp1 (cfg : Cfg R) (q sigma : R) (alpha : Order R) : Except Err (EV R
     | .frac a =>
       if !(lt (ofNat 1) a) then .error .badOrder else
       if lt q (ofNat 0) || lt (ofNat 1) q then .error .mathDomain else
-      match logAFrac cfg.logNdtr cfg.fuel q sigma a with
+      match logAFrac cfg.logNdtr cfg.repaired cfg.fuel q sigma a with
       | .error e => .error e
       | .ok (some la) => .ok (.fin (la / (a - ofNat 1)))
       | .ok none => .error .logZero
 
-/-- `compute_rdp(q=, noise_multiplier=, steps=, orders=)` for a list of orders -/
+/-- list comprehension over a function that may raise: the first exception wins -/
+def mapE {α β : Type} (f : α → Except Err β) : List α → Except Err (List β)
+  | [] => .ok []
+  | a :: t =>
+    match f a with
+    | .error e => .error e
+    | .ok b =>
+      match mapE f t with
+      | .error e => .error e
+      | .ok bs => .ok (b :: bs)
+
+/-- `compute_rdp(q=, noise_multiplier=, steps=, orders=)` for a list of orders:
+`np.array([_compute_rdp(q, sigma, order) for order in orders]) * steps` -/
 def computeRdp (cfg : Cfg R) (q sigma : R) (steps : Nat) (orders : List (Order R)) :
     Except Err (List (EV R)) :=
-  orders.mapM (fun a => (computeRdp1 cfg q sigma a).map (·.mulNat steps))
+  mapE (fun a => match computeRdp1 cfg q sigma a with
+    | .error e => .error e
+    | .ok r => .ok (r.mulNat steps)) orders
 
 /-- one component of the vector `eps` of `get_privacy_spent` (Balle et al. 2020, Thm 21) -/
 def epsAt (rdp : EV R) (alpha : Order R) (delta : R) : EV R :=
